@@ -16,6 +16,7 @@ Oracle: CPython executing the identical source: value (type + repr), exception t
 by user code (caught and returned inside the templates), and the ordered side-effect log.
 """
 from vlib import e2, farm
+from props._g6_common import ConfirmCtx
 
 LEVEL = 'exploration'
 ENGINE = 'E2 diffexplore'
@@ -442,7 +443,8 @@ def run(ctx):
     ctx.log('%d functions (%d template/context combinations not valid Python, skipped)' % (len(parts), len(skipped)))
     mods = [e2.Mod('c01_%d' % (i // PER_MODULE), PRELUDE, parts[i:i + PER_MODULE], inputs, ext='.py', use_log=True)
             for i in range(0, len(parts), PER_MODULE)]
-    st = e2.run_diff(ctx, mods, keyfn=_keyfn, reach=REACH, timeout=1800)
+    cc = ConfirmCtx(ctx, _keyfn)
+    st = e2.run_diff(cc, mods, keyfn=_keyfn, reach=REACH, timeout=1800)
     cov = {
         'evaluations': st['evaluations'], 'distinct_nontrivial': st['pairs'],
         'rule': 'a case is counted once per distinct (function, reference outcome incl. side-effect log) pair: argument pairs '
@@ -452,6 +454,7 @@ def run(ctx):
         'pairs_enumerated': len(EXPR) ** 2 * (1 if ctx.tier == 'quick' else len(CONTEXTS)),
         'not_applicable_in_context': skipped, 'argument_pairs': len(inputs['ab']),
         'mismatches': st['mismatches'], 'crashes': st['crashes'], 'build_failures': st['build_failures'],
+        'crashes_not_reproduced_on_replay': cc.unreproduced,
         'reach': st.get('reach'), 'reach_gaps': st.get('reach_gaps'),
         'samples': [{'tag': t, 'function': s} for t, s in (srcs[3], srcs[len(EXPR) * 5 + 7], srcs[-100])],
         'exhaustive': True,
